@@ -209,14 +209,15 @@ def acceptor_group(rng, cfg, P, ids, port, srv=None, nclients=None, lifecycle=Tr
         io_chain(rng, P, ss, hc, ids.s(), rng.choice([0, 1, 50, 300, 1500, 4000]), rng.choice([1, 2, 4, 8]), close_p=0.2)
         prev = hc
     if lifecycle and rng.random() < 0.3:
-        c = P.at(rng.choice(TIMES[3:]))
+        tc = rng.choice(TIMES[3:])
+        c = P.at(tc)
         x = rng.random()
         if x < 0.3: P.do(c, "%s.cancel" % a)
         else:
             P.do(c, "%s.%s" % (a, rng.choice(["close", "close0", "close"])))
             if rng.random() < 0.5:
-                # re-open on the same or another port and go on accepting
-                c2 = c if rng.random() < 0.5 else P.at(rng.choice(TIMES[6:]) + 77)
+                # re-open (after the close) on the same or another port and go on accepting
+                c2 = c if rng.random() < 0.5 else P.at(tc + rng.choice([77, 1000077, 400000077]))
                 port2 = port if rng.random() < 0.6 else port + 50
                 P.do(c2, "%s.open %s" % (a, "v6" if six else "v4")); P.do(c2, "%s.bind %s" % (a, ep(sip, port2))); P.do(c2, "%s.listen" % a)
                 h = P.h(); ss = P.sock(); P.do("top", "%s.new %s" % (ss, srv[0]))
@@ -224,7 +225,7 @@ def acceptor_group(rng, cfg, P, ids, port, srv=None, nclients=None, lifecycle=Tr
                 views(P, "h%d" % h, ss, a, rng)
                 io_chain(rng, P, ss, "h%d" % h, ids.s(), rng.choice([0, 40, 900]), 3)
                 nd = rng.choice(cand)
-                c3 = c2 if rng.random() < 0.4 else P.at(2000000000)
+                c3 = c2 if rng.random() < 0.4 else P.at(tc + 900000000)
                 cs, hc = client(rng, cfg, P, ids, nd[0], ep(sip, port2), six, c3)
                 views(P, hc, cs)
                 io_chain(rng, P, cs, hc, ids.s(), rng.choice([0, 40, 900]), 3)
